@@ -51,10 +51,12 @@ N_KNOTS = {"quick": 300, "thorough": 600}
 REQUIRED_COUNTERS = {
     "quick": {"affine_map_read": 180, "cov_vs_logd_hessian_checked": 90, "mode_checked": 90, "stream_replay_checked": 550,
               "rng_reproducible_checked": 100, "global_state_checked": 100, "draws_distinct_checked": 100, "wrapper_shape_checked": 300,
-              "ks_tests": 20, "moment_tests": 35, "independence_tests": 30, "conditional_refusal_checked": 15, "mhn_regime_draws": 150000},
+              "ks_tests": 20, "moment_tests": 35, "independence_tests": 30, "conditional_refusal_checked": 15, "mhn_regime_draws": 150000,
+              "history_reassign_checked": 70},
     "thorough": {"affine_map_read": 340, "cov_vs_logd_hessian_checked": 170, "mode_checked": 170, "stream_replay_checked": 1000,
                  "rng_reproducible_checked": 190, "global_state_checked": 180, "draws_distinct_checked": 180, "wrapper_shape_checked": 550,
-                 "ks_tests": 45, "moment_tests": 75, "independence_tests": 60, "conditional_refusal_checked": 15, "mhn_regime_draws": 4000000}}
+                 "ks_tests": 45, "moment_tests": 75, "independence_tests": 60, "conditional_refusal_checked": 15, "mhn_regime_draws": 4000000,
+                 "history_reassign_checked": 150}}
 BUDGET_S = {"quick": 240.0, "thorough": 2400.0}
 
 P_STAT = 1e-7
@@ -70,6 +72,9 @@ def _gauss_forms():
         out += [(form, s, "dense") for s in ("scalar", "vector", "diag", "lower", "upper", "symmetric", "nonsymmetric")]
         out += [(form, s, "sparse") for s in ("diag", "lower", "upper", "symmetric", "nonsymmetric")]
     out.append(("sqrtprec", "diag", "dia"))
+    # banded matrices stored in DIA format (the class docstring builds sqrtprec with scipy.sparse.diags)
+    out += [("sqrtprec", s, "dia") for s in ("lower", "upper", "nonsymmetric", "symmetric")]
+    out += [("sqrtcov", "lower", "dia"), ("cov", "full", "dia"), ("prec", "full", "dia")]
     return out
 
 _SMALL = (2, 3, 4, 5, 6, 9, 12)
@@ -461,7 +466,7 @@ def _affine_monitor(ctx, d, cfg, T=None, T_inv=None, log_jac=None, reg_eps=0.0, 
 
 # =========================================================================== builders
 
-def _build_gauss(cuqi, case, rs):
+def _gauss_matrix(case, rs):
     import scipy.sparse as sp
     n, form, shape, storage = case["n"], case["form"], case["shape"], case["storage"]
     scale = float(10 ** rs.uniform(-1.2, 1.2))
@@ -480,11 +485,20 @@ def _build_gauss(cuqi, case, rs):
     if storage == "sparse":
         M = sp.csr_matrix(M)
     elif storage == "dia":
-        M = sp.diags(np.diag(M))
-    mk = case["mean"]
+        M = sp.dia_matrix(M)
+    return M
+
+def _gauss_mean(case, rs):
+    n, mk = case["n"], case["mean"]
     mean = np.zeros(n) if mk == "zeros" else (rs.uniform(-3, 3, n) if mk == "vector" else float(rs.uniform(-3, 3)))
     if case.get("scale") == "huge_std":
         mean = mean * 1e9
+    return mean
+
+def _build_gauss(cuqi, case, rs):
+    n, form, shape = case["n"], case["form"], case["shape"]
+    M = _gauss_matrix(case, rs)
+    mean = _gauss_mean(case, rs)
     kw = {form: M, "name": "x"}
     g = _geometry(cuqi, case["geom"], n)
     if g is not None:
@@ -504,6 +518,18 @@ def _run_gauss(case, ctx, cuqi, rs):
         ctx.nontrivial()
     _rng_monitor(ctx, d, cfg)
     _wrapper_monitor(ctx, cuqi, d, cfg)
+    # history: the same object after its public parameters were re-assigned (it has already been sampled from)
+    if case["dimclass"] == "small" or ctx.tier == "thorough" or case.get("rep", 0) == 0:
+        def reassign():
+            setattr(d, case["form"], _gauss_matrix(case, rs))
+            if case["mean"] != "zeros":
+                d.mean = _gauss_mean(case, rs)
+        kind, val = core.outcome(reassign)
+        ctx.count("history_reassign_checked")
+        if kind != "value":
+            ctx.refused("parameter re-assignment", val)
+        else:
+            _affine_monitor(ctx, d, {**cfg, "history": "reassigned"}, vias=("rng",))
 
 def _run_gmrf(case, ctx, cuqi, rs):
     cfg = _cfg(case)
@@ -530,6 +556,13 @@ def _run_gmrf(case, ctx, cuqi, rs):
         ctx.nontrivial()
     _rng_monitor(ctx, d, cfg)
     _wrapper_monitor(ctx, cuqi, d, cfg)
+    # history: re-assign prec (and the mean) of the object that has already been sampled from
+    delta2 = float(delta * 10 ** rs.uniform(0.7, 1.5) if rs.uniform() < 0.5 else delta / 10 ** rs.uniform(0.7, 1.5))
+    d.prec = delta2
+    if case["mean"] == "vector":
+        d.mean = rs.uniform(-2, 2, n)
+    ctx.count("history_reassign_checked")
+    _affine_monitor(ctx, d, {**cfg, "history": "reassigned"}, reg_eps=0.0 if bc == "zero" else delta2 * math.sqrt(np.finfo(float).eps), vias=("rng",))
 
 def _run_lognormal(case, ctx, cuqi, rs):
     cfg = _cfg(case)
@@ -547,6 +580,11 @@ def _run_lognormal(case, ctx, cuqi, rs):
         ctx.nontrivial()
     _rng_monitor(ctx, d, cfg)
     _wrapper_monitor(ctx, cuqi, d, cfg)
+    # history: re-assigned mean / cov of the same object (Lognormal keeps an inner Gaussian in sync)
+    d.mean = rs.uniform(-1, 1, n)
+    d.cov = float(rs.uniform(0.05, 0.6)) if shape == "scalar" else (rs.uniform(0.05, 0.6, n) if shape == "vector" else L.spd(rs, n, cond=10.0, scale=0.05))
+    ctx.count("history_reassign_checked")
+    _affine_monitor(ctx, d, {**cfg, "history": "reassigned"}, T=np.log, T_inv=np.exp, log_jac=lambda y: float(np.sum(y)), vias=("rng",))
 
 def _run_normal(case, ctx, cuqi, rs):
     cfg = _cfg(case)
@@ -562,6 +600,10 @@ def _run_normal(case, ctx, cuqi, rs):
         ctx.nontrivial()
     _rng_monitor(ctx, d, cfg)
     _wrapper_monitor(ctx, cuqi, d, cfg)
+    d.mean = float(rs.uniform(-3, 3)) if params == "scalar" else rs.uniform(-3, 3, n)
+    d.std = 10 ** rs.uniform(-1, 1, n) if params == "vector" else float(10 ** rs.uniform(-1, 1))
+    ctx.count("history_reassign_checked")
+    _affine_monitor(ctx, d, {**cfg, "history": "reassigned"}, vias=("rng",))
 
 def _run_gallery(case, ctx, cuqi, rs):
     cfg = _cfg(case)
@@ -641,6 +683,9 @@ def _build_stat(cuqi, case, rs):
             return D.ModifiedHalfNormal(a, b, g, geometry=3, name="x"), np.zeros(3), np.full(3, inf), True, {"alpha": a, "beta": b, "gamma": g}
         return D.ModifiedHalfNormal(a, b, g, name="x"), np.zeros(1), np.full(1, inf), True, {"alpha": a, "beta": b, "gamma": g}
     raise ValueError(fam)
+
+_STAT_ATTRS = {"Normal": ("mean", "std"), "Gamma": ("shape", "rate"), "InverseGamma": ("shape", "location", "scale"),
+               "Beta": ("alpha", "beta"), "Laplace": ("location", "scale"), "Uniform": ("low", "high"), "Cauchy": ("location", "scale")}
 
 def _law_tests(x, logf, lo, hi, want_moments, n_knots=300):
     """KS (+ moments) of the 1-D data x against the density exp(logf). Returns list of
@@ -788,6 +833,19 @@ def _run_stat(case, ctx, cuqi, rs):
             A = np.asarray(d.sample(nn).samples, dtype=float)
             return A.reshape(1, -1) if A.ndim == 1 else A
         _two_stage(ctx, {**cfg, "branch": "global"}, draw_global, slicer, lo, hi, mom, n, coords, [s + 7 for s in seeds])
+    # history: re-assign every public parameter of the object that has been sampled from; it must then draw exactly
+    # like a freshly built distribution with these parameters under the same generator state (else: law tests)
+    attrs = _STAT_ATTRS.get(fam)
+    if attrs:
+        d2, lo2, hi2, mom2, _ = _build_stat(cuqi, case, rs)
+        for a in attrs:
+            setattr(d, a, getattr(d2, a))
+        ha = np.asarray(d.sample(50, rng=np.random.RandomState(77)).samples, dtype=float)
+        hb = np.asarray(d2.sample(50, rng=np.random.RandomState(77)).samples, dtype=float)
+        ctx.count("history_reassign_checked")
+        if ha.shape != hb.shape or not np.array_equal(ha, hb):
+            ctx.count("history_law_tested")
+            _two_stage(ctx, {**cfg, "history": "reassigned"}, draw, slicer, lo2, hi2, mom2, n, coords, [s + 13 for s in seeds])
     if fam == "ModifiedHalfNormal" and mhn_args:
         ctx.count("mhn_sampler_params_checked")
         want = (params["alpha"], params["beta"], params["gamma"])
